@@ -131,6 +131,10 @@ def outcome (cond cause order : String) : String :=
     let s1 := drain cfg fuel s0
     let s2 := match cause with
       | "close" => apply s1 .peerClose
+      -- the life-cycle model has no half-closed socket: its `peerClosed` makes reads AND writes fail.
+      -- For the code as it is that is the same thing one step later - the receiver closes the socket
+      -- when its read fails (`lifeRecvCalls`), which is what makes a blocked socket write fail
+      | "halfclose" => apply s1 .peerClose
       | "srvclose" => serverClose s1
       | _ => s1
     let p := settle cause 6 { st := s2 }
